@@ -115,6 +115,7 @@ Move ==
            Ls == IF isLegal THEN SafeLegal(ps) ELSE legal
            B == Checks(ps, Ls, e.obs) \cup ProbeChecks(Ls, e)
                 \cup Fail("C02", "accept", e.accepted = isLegal)
+                \cup Fail("C01", "is_legal-refuses-generated-move", e.refused_generated = <<>>)
                 \cup Fail("C02", "refusal-touched", e.accepted \/ e.untouched)
            \* after a (reported) divergence continue from the implementation's position, so that
            \* the rest of the walk is checked on its own merits instead of repeating the report
